@@ -8,6 +8,8 @@ import (
 
 type pingTransaction struct {
 	*transaction
+	// keepalive is set for pings issued by the keep-alive goroutine.
+	keepalive bool
 }
 
 func newPingTransaction(client *Client) *pingTransaction {
